@@ -247,6 +247,9 @@ P3_TOOLS = ["reader_slice", "reader_reread", "reader_iter", "taste", "taste_bad"
             "mandoline3d_plt", "pestle", "whip"]
 
 
+SPAWN_TOOLS = ["reader_slice", "reader_iter", "taste", "colander", "combine_bybox", "combine_byfile", "mandoline2d", "mandoline3d", "pestle", "whip", "chk2plt"]
+
+
 def cases(tier, seed):
     out = [{"tool": t, "seed": seed, "bound": bounds(tier)["deviation_bound"], "w": 5 if t in ("taste", "chk2plt", "pestle") else 1}
            for t in sorted(TOOLS)]
@@ -600,6 +603,18 @@ def parent_pass(tier, seed, workdir):
         for rep in range(2):
             ctl, ev, dg, obs = observe(tool, env, out, False, None, controlled=False)
             res.append({"outcome": "%s:%016x" % (tool, dg), "what": "real pool run %d of %s" % (rep, tool), "obs": repr(obs)[:200]})
+    # (3) the same tools under the SPAWN start method (macOS / Windows default, a caller's set_start_method): the workers do not
+    # inherit the parent's memory, they import the package afresh and see only what a task carries
+    import multiprocessing as _mp
+    import unittest.mock as _mock
+    _mp.set_start_method("spawn", force=True)
+    try:
+        with _mock.patch("os.cpu_count", return_value=2), _mock.patch("multiprocessing.cpu_count", return_value=2):
+            for tool in SPAWN_TOOLS:
+                ctl, ev, dg, obs = observe(tool, env, os.path.join(workdir, "spawn_" + tool), False, None, controlled=False)
+                res.append({"outcome": "%s:%016x" % (tool, dg), "what": "%s under the spawn start method (real pool, 2 workers)" % tool, "obs": repr(obs)[:200]})
+    finally:
+        _mp.set_start_method("fork", force=True)
     for v in (1, 2):
         wv = os.path.join(workdir, "variant%d" % v)
         os.makedirs(wv)
